@@ -10,7 +10,7 @@
        dict-assignment semantics on the derived ids; money in exact integer ticks;
    (e) which figure each output format prints.
    Texts are lists of code points (TextLib).  No proofs here. *)
-From Coq Require Import String Ascii List Bool NArith ZArith.
+From Coq Require Import String Ascii List Bool NArith ZArith DecimalString DecimalN.
 From Tally Require Import C12.TextLib Gen.C12MerchantId Gen.C12Embed.
 Import ListNotations.
 Open Scope N_scope.
@@ -231,6 +231,16 @@ Definition mid (m : merchant) : text := Id.make_merchant_id (m_name m).
 Definition to_j (m : merchant) : jmerchant :=
   {| j_id := mid m; j_name := m_name m; j_cat := m_cat m; j_sub := m_sub m; j_ytd := m_total m;
      j_count := m_count m; j_txns := m_txns m |}.
+
+(* the transaction rows written under a merchant: EVERY analysed transaction, in order, the i-th with
+   id f"{merchant_id}_{i}" (no cap on the number of rows) and its fields copied as they are
+   (description, amount, month, tags, source; extra_fields when non-empty — the empty dict is falsy) *)
+Definition dec_text (n : N) : text := cps (NilZero.string_of_uint (N.to_uint n)).      (* str(i) *)
+Definition txn_id (merchant_id : text) (i : nat) : text := merchant_id ++ 95%N :: dec_text (N.of_nat i).
+Fixpoint number_from {A} (i : nat) (l : list A) : list (nat * A) :=
+  match l with [] => [] | x :: r => (i, x) :: number_from (S i) r end.                 (* enumerate(l, i) *)
+Definition embedded_txns (j : jmerchant) : list (text * txn) :=
+  map (fun p => (txn_id (j_id j) (fst p), snd p)) (number_from 0 (j_txns j)).
 
 (* d[k] = v on an insertion-ordered dict *)
 Fixpoint tset {V : Type} (d : list (text * V)) (k : text) (v : V) : list (text * V) :=
